@@ -54,6 +54,9 @@ func runBubble(t *testing.T, sc *gen.Scenario, trace bool, body func(e *Env)) *h
 				out.Probes = map[string]int64{}
 			}
 			out.Probes["runs_with_leaked_goroutines"]++
+			if sc.Property == "C21" && out.Violation == nil && strings.Contains(leaked, "listobjects/pipeline") {
+				out.Violation = &harness.Violation{Class: "pipeline_teardown_incomplete", Sig: leakSig(leaked), Detail: "pipeline goroutines still blocked 30 s (virtual) after every call returned and the server was closed:\n" + leaked}
+			}
 			if sc.Property == "C20" && out.Violation == nil {
 				out.Violation = &harness.Violation{Class: "goroutine_leak", Sig: leakSig(leaked), Detail: "goroutines still blocked 30 s (virtual) after every call returned and the server was closed:\n" + leaked}
 			}
